@@ -35,6 +35,16 @@ DOMAINS = {
     "neg": (Fraction(-3), Fraction(5)), "end0": (Fraction(-1), Fraction(1)), "end0wide": (Fraction(-364), Fraction(364)),
     "sym": (Fraction(-1), Fraction(2)), "allneg": (Fraction(-5), Fraction(3)),
 }
+
+
+def _domain(name):
+    """(lo, scale) of a named domain; `int:<lo>:<scale>` is an integer lattice lo + {0..scale} (unit grid i/scale)."""
+    if name.startswith("int:"):
+        _, lo, sc = name.split(":")
+        return Fraction(int(lo)), Fraction(int(sc))
+    return DOMAINS[name]
+
+
 DOM_CHOICES = ["unit", "unit", "doy", "shift1000", "neg", "end0", "end0", "end0wide", "sym", "allneg"]
 ENTRIES = [
     "PSplines.predict", "PSplines.predict", "PSplines.predict2d", "LocalPolynomial.predict", "LocalPolynomial.predict2d",
@@ -56,6 +66,20 @@ def _grid01(rng: Rng, m, uniform=None):
         return [Fraction(i, m - 1) for i in range(m)]
     inner = sorted(rng.sample(range(1, 256), m - 2))
     return [Fraction(0)] + [Fraction(j, 256) for j in inner] + [Fraction(1)]
+
+
+def _gap_grid(rng: Rng, m):
+    """m sorted dyadic points of [0,1] containing 0 and 1, none in the open interval (5/16, 11/16)."""
+    left = sorted(rng.sample(range(1, 80), (m - 2) // 2))
+    right = sorted(rng.sample(range(177, 256), m - 2 - (m - 2) // 2))
+    return [Fraction(0)] + [Fraction(j, 256) for j in left] + [Fraction(5, 16), Fraction(11, 16)] + [Fraction(j, 256) for j in right] + [Fraction(1)]
+
+
+def _gap_queries(rng: Rng, g):
+    """Query set with locations deep inside the gap (further than 1/8 from every sampling point) and outside it."""
+    inside = [Fraction(1, 2), Fraction(rng.choice([61, 63, 65, 67]), 128)]
+    outside = [Fraction(rng.randint(3, 30), 128), Fraction(rng.randint(34, 39), 128), Fraction(rng.randint(89, 96), 128), Fraction(rng.randint(100, 125), 128)]
+    return sorted(set(inside + outside))
 
 
 def _curve(rng: Rng, g, kind):
@@ -94,6 +118,13 @@ def _variants(rng: Rng, Q, g, samecount=False):
     vs.append(("perm", p))
     extra = [g[0], g[-1], g[0] + (g[-1] - g[0]) * Fraction(rng.randint(1, 127), 128)]
     vs.append(("super", sorted(set(Q) | set(extra))))
+    inside = [q for q in Q if Fraction(5, 16) < (q - g[0]) / (g[-1] - g[0]) < Fraction(11, 16)] if all(
+        not (Fraction(5, 16) < (t - g[0]) / (g[-1] - g[0]) < Fraction(11, 16)) for t in g) else []
+    if inside:
+        # locations further than one bandwidth from every sampling point: alone, with one neighbour, with far points only
+        vs.append(("gap_single", [inside[0]]))
+        vs.append(("gap_pair", sorted({inside[-1], Q[0]})))
+        vs.append(("gap_only", inside))
     if samecount and len(g) <= 25:
         # as many query points as sampling points, but located elsewhere (contains two points of Q)
         m = len(g)
@@ -106,7 +137,7 @@ def _variants(rng: Rng, Q, g, samecount=False):
 
 
 def _scale_pts(dom, pts):
-    lo, sc = DOMAINS[dom]
+    lo, sc = _domain(dom)
     return [lo + sc * t for t in pts]
 
 
@@ -122,9 +153,12 @@ def _case(rng: Rng, tier, entry=None, force=None):
     two_d = entry.endswith("2d")
     big = tier == "thorough"
     case = dict(kind="q", entry=entry.replace("2d", ""), method=method, dim=2 if two_d else 1, dom=dom)
-    lo, sc = DOMAINS[dom]
+    lo, sc = _domain(dom)
     ykind = rng.choice(["smooth", "smooth", "rand", "const"]) if not force.get("nonconst") else "smooth"
     case["ykind"] = ykind
+    # a sampling grid with a gap wider than twice the bandwidth and query locations inside the gap (empty local problems)
+    gap = (method == "LP" and not two_d and not entry.endswith("covariance") and not entry.startswith("PSplines")
+           and (force.get("gap") or rng.random() < 0.3))
     # smoothing parameters
     if method == "PS":
         case["nseg"] = [rng.choice([2, 3, 4, 5, 8] + ([12, 20] if big else [])) for _ in range(2)]
@@ -134,6 +168,11 @@ def _case(rng: Rng, tier, entry=None, force=None):
         case["kernel"] = rng.choice(c06.KERNELS)
         case["degree"] = rng.choice([0, 1, 1, 2])
         case["hu"] = rs(rng.choice([Fraction(1, 4), Fraction(3, 8), Fraction(1, 2), Fraction(3, 4), Fraction(1)]))
+        if gap:
+            case["gap"] = True
+            case["kernel"] = rng.choice(["epanechnikov", "tricube", "bisquare"])
+            case["degree"] = rng.choice([0, 1])
+            case["hu"] = rs(Fraction(1, 8))
     if entry in ("PSplines.predict", "LocalPolynomial.predict"):
         m = rng.choice([6, 9, 12, 17, 25] + ([40] if big else []))
         g = _grid01(rng, m)
@@ -143,8 +182,12 @@ def _case(rng: Rng, tier, entry=None, force=None):
             g[0], g[1] = Fraction(0), Fraction(1)
         case["x"] = [rs(t) for t in _scale_pts(dom, g)]
         case["y"] = [rs(t) for t in _curve(rng, g, ykind)]
+        if gap:
+            g = _gap_grid(rng, rng.choice([17, 21, 25]))
+            case["x"] = [rs(t) for t in _scale_pts(dom, g)]
+            case["y"] = [rs(t) for t in _curve(rng, g, ykind)]
         gs = sorted(set(g))
-        Q = _queries(rng, gs)
+        Q = _gap_queries(rng, gs) if gap else _queries(rng, gs)
         if entry == "PSplines.predict" and rng.random() < 0.4:
             # explicit fit domain: wider than the data on both sides / on one side, or exactly the data range given
             # explicitly (for the domains touching 0 this passes an explicit bound equal to 0)
@@ -155,6 +198,14 @@ def _case(rng: Rng, tier, entry=None, force=None):
     elif two_d:
         m1, m2 = rng.randint(5, 8), rng.randint(5, 9)
         g1, g2 = _grid01(rng, m1), _grid01(rng, m2)
+        # mixed dtypes per axis: an INTEGER array (np.arange-like) on the first axis, floats on the second; the same
+        # locations are also requested with a float first axis (query set 'asfloat')
+        int0 = not entry.startswith("LocalPolynomial") and (force.get("int_axis0") or rng.random() < 0.45)
+        if int0:
+            m1 = rng.randint(6, 8)
+            dom = f"int:{rng.choice([0, 1, -3, 100])}:{m1 - 1}"
+            case["dom"], case["int_axis0"] = dom, True
+            g1 = [Fraction(i, m1 - 1) for i in range(m1)]
         dom2 = rng.choice(["unit", "neg", "doy", "end0", "sym", "allneg"])
         case["dom2"] = dom2
         case["x"] = [rs(t) for t in _scale_pts(dom, g1)]
@@ -166,6 +217,8 @@ def _case(rng: Rng, tier, entry=None, force=None):
             Y.append([[rs(a * b + a) if ykind != "const" else rs(Fraction(3, 2)) for b in r2] for a in r1])
         case["Y"] = Y
         Q1, Q2 = _queries(rng, g1, k=rng.randint(4, 5)), _queries(rng, g2, k=rng.randint(4, 5))
+        if int0:
+            Q1 = sorted(rng.sample(g1[1:-1], 4))
         case["Q"] = [rs(t) for t in _scale_pts(dom, Q1)]
         case["Q2"] = [rs(t) for t in _scale_pts(dom2, Q2)]
         v1, v2 = _variants(rng, Q1, g1), _variants(rng, Q2, g2)
@@ -174,23 +227,26 @@ def _case(rng: Rng, tier, entry=None, force=None):
             vs.append([f"{n1}x{n2}", [rs(t) for t in _scale_pts(dom, a)], [rs(t) for t in _scale_pts(dom2, b)]])
         vs.append(["subxsame", [rs(t) for t in _scale_pts(dom, v1[0][1])], case["Q2"]])
         case["variants"] = vs[:5]
-        if method == "LP":
+        if method == "LP" or int0:
             # the exact 2-D local problems are the expensive part of the model: small product query sets
             keep = lambda v, k: v[:k]  # noqa: E731
             case["Q"], case["Q2"] = keep(case["Q"], 4), keep(case["Q2"], 3)
             Q1s, Q2s = case["Q"], case["Q2"]
             case["variants"] = [["subxsame", Q1s[1:3], Q2s], ["singlexthin", [Q1s[2]], Q2s[::2]], ["permxperm", Q1s[::-1], [Q2s[1], Q2s[2], Q2s[0]]],
                                 ["superxsub", sorted(set(Q1s) | {case["x"][0]}, key=F), Q2s[:2]]]
+        if int0:
+            case["variants"].append(["asfloat", case["Q"], case["Q2"]])
+        if method == "LP":
             case["hu"] = rs(rng.choice([Fraction(1, 2), Fraction(3, 4), Fraction(1)]))
             case["degree"] = rng.choice([0, 1, 1, 2])
     elif entry.startswith("DenseFunctionalData"):
         cov = entry.endswith("covariance")
         m = rng.choice([7, 8, 10] if cov else [9, 13, 17, 25])
-        g = _grid01(rng, m)
+        g = _gap_grid(rng, rng.choice([17, 21, 25])) if gap else _grid01(rng, m)
         nobs = rng.randint(3, 5) if (cov or entry.endswith("mean")) else rng.randint(1, 3)
         case["x"] = [rs(t) for t in _scale_pts(dom, g)]
         case["X"] = [[rs(t) for t in _curve(rng, g, ykind if k == 0 else rng.choice(["smooth", "rand"]))] for k in range(nobs)]
-        Q = _queries(rng, g, k=rng.randint(4, 5) if cov else None)
+        Q = _gap_queries(rng, g) if gap else _queries(rng, g, k=rng.randint(4, 5) if cov else None)
         case["Q"] = [rs(t) for t in _scale_pts(dom, Q)]
         case["variants"] = [[nm, [rs(t) for t in _scale_pts(dom, v)]] for nm, v in _variants(rng, Q, g, samecount=not cov)]
         if cov:
@@ -210,7 +266,8 @@ def _case(rng: Rng, tier, entry=None, force=None):
             # more than 2000 pooled observations (size threshold of the approximate mean), many curves sharing few locations
             m, nobs = rng.choice([44, 48]), rng.choice([52, 60])
             case["pooled"] = True
-        g = _grid01(rng, m)
+        g = _gap_grid(rng, m if pooled else rng.choice([17, 21, 25])) if gap else _grid01(rng, m)
+        m = len(g)
         obs = []
         for k in range(nobs):
             need = 7 if cov else 6
@@ -220,7 +277,7 @@ def _case(rng: Rng, tier, entry=None, force=None):
             gi = [g[i] for i in idx]
             obs.append(dict(t=[rs(t) for t in _scale_pts(dom, gi)], y=[rs(t) for t in _curve(rng, gi, (ykind if k == 0 else "smooth") if not pooled else "rand")]))
         case["obs"] = obs
-        Q = _queries(rng, g, k=rng.randint(4, 5) if cov else None)
+        Q = _gap_queries(rng, g) if gap else _queries(rng, g, k=rng.randint(4, 5) if cov else None)
         case["Q"] = [rs(t) for t in _scale_pts(dom, Q)]
         case["variants"] = [[nm, [rs(t) for t in _scale_pts(dom, v)]] for nm, v in _variants(rng, Q, g, samecount=not cov)]
         if cov:
@@ -231,7 +288,7 @@ def _case(rng: Rng, tier, entry=None, force=None):
             case["variants"] = [["sub", Qs[1:3]], ["thin", Qs[::2]], ["single", [Qs[2]]], ["perm", [Qs[2], Qs[0], Qs[3], Qs[1]]], ["super", sorted(set(Qs) | {case["obs"][0]["t"][0]}, key=F)]]
             case["degree"] = rng.choice([1, 2])
             case["hu"] = rs(rng.choice([Fraction(3, 4), Fraction(1)]))
-    if method == "LP" and not entry.startswith(("PSplines", "LocalPolynomial")) and not two_d and dom in ("unit", "end0") and rng.random() < 0.5:
+    if method == "LP" and not entry.startswith(("PSplines", "LocalPolynomial")) and not two_d and not gap and dom in ("unit", "end0") and rng.random() < 0.5:
         case["default_bw"] = True  # the entry point's own default bandwidth (a function of the DATA, not of the query set)
     return case
 
@@ -247,6 +304,12 @@ def gen_cases(rng: Rng, tier):
                 k += 1
     for method in ("PS", "LP"):
         yield _case(rng, tier, "IrregularFunctionalData.mean", dict(method=method, dom=rng.choice(["unit", "end0", "doy"]), nonconst=True, pooled=True))
+        k += 1
+    for entry, method in (("DenseFunctionalData.smooth2d", "LP"), ("DenseFunctionalData.smooth2d", "PS"), ("PSplines.predict2d", "PS")):
+        yield _case(rng, tier, entry, dict(method=method, nonconst=True, int_axis0=True))
+        k += 1
+    for entry in ("LocalPolynomial.predict", "DenseFunctionalData.smooth", "DenseFunctionalData.mean", "IrregularFunctionalData.smooth", "IrregularFunctionalData.mean"):
+        yield _case(rng, tier, entry, dict(method="LP", dom=rng.choice(["unit", "doy", "neg"]), nonconst=True, gap=True))
         k += 1
     while k < n:
         yield _case(rng, tier)
@@ -331,10 +394,23 @@ def _lp_rec(r):
     return dict(x=x.tolist(), y=r["y"].tolist(), kernel=r["kernel"], h=r["h"], degree=r["degree"])
 
 
-def _dargs(v, v2=None):
+def _np0(case, v, name=None):
+    """First-axis array: int64 when the case asks for an integer first axis (except for the query set 'asfloat')."""
+    if case.get("int_axis0") and name != "asfloat":
+        return np.array([int(F(t)) for t in v], dtype=np.int64)
+    return _np(v)
+
+
+def _product(a, b):
+    """Cartesian product of two coordinate arrays as floats (independent of FDApy's helper)."""
+    A, B = np.meshgrid(np.asarray(a, dtype=float), np.asarray(b, dtype=float), indexing="ij")
+    return np.column_stack([A.ravel(), B.ravel()])
+
+
+def _dargs(v, v2=None, case=None, name=None):
     from FDApy.representation.argvals import DenseArgvals
 
-    d = {"input_dim_0": _np(v)}
+    d = {"input_dim_0": _np0(case, v, name) if case is not None else _np(v)}
     if v2 is not None:
         d["input_dim_1"] = _np(v2)
     return DenseArgvals(d)
@@ -358,7 +434,7 @@ def run_impl(case):
     from FDApy.representation.values import DenseValues, IrregularValues
 
     entry, method, dim = case["entry"], case["method"], case["dim"]
-    lo, sc = DOMAINS[case["dom"]]
+    lo, sc = _domain(case["dom"])
     out = dict(calls=[])
     if method == "LP":
         h = float(F(case["hu"]) * sc)
@@ -394,13 +470,13 @@ def run_impl(case):
             fresh.fit(y2, x2, penalty=(float(F(case["pen"][0])),))
             out["hist_fresh"] = np.asarray(fresh.predict(q2)).tolist()
         else:
-            x1, x2 = _np(case["x"]), _np(case["x2"])
+            x1, x2 = _np0(case, case["x"]), _np(case["x2"])
             Y = np.array([[float(F(t)) for t in r] for r in case["Y"][0]])
             ps = PSplines(n_segments=np.array(case["nseg"]), degree=np.array(case["deg"]))
             ps.fit(Y, [x1, x2], penalty=tuple(float(F(p)) for p in case["pen"]))
             fit = dict(beta=np.array(ps.beta_hat).tolist(), dom=[(float(x1.min()), float(x1.max())), (float(x2.min()), float(x2.max()))], nseg=case["nseg"], deg=case["deg"])
             for nm, p1, p2 in calls:
-                out["calls"].append(dict(name=nm, vals=np.asarray(ps.predict([_np(p1), _np(p2)])).tolist(), fits=[fit]))
+                out["calls"].append(dict(name=nm, vals=np.asarray(ps.predict([_np0(case, p1, nm), _np(p2)])).tolist(), fits=[fit]))
             out["y_hat"] = np.asarray(ps.y_hat).tolist()
             out["at_x"] = np.asarray(ps.predict([x1, x2])).tolist()
         return out
@@ -421,14 +497,12 @@ def run_impl(case):
             buf[:] = _np(pv)
             out["inplace"] = dict(first=first, pts=pv, second=lp.predict(y=y, x=x, x_new=buf).tolist())
         else:
-            from FDApy.misc.utils import _cartesian_product
-
             x1, x2 = _np(case["x"]), _np(case["x2"])
-            X = _cartesian_product(x1, x2)
+            X = _product(x1, x2)
             y = np.array([[float(F(t)) for t in r] for r in case["Y"][0]]).flatten()
             rec = dict(x=X.tolist(), y=y.tolist(), kernel=case["kernel"], h=h, degree=case["degree"])
             for nm, p1, p2 in calls:
-                P = _cartesian_product(_np(p1), _np(p2))
+                P = _product(_np(p1), _np(p2))
                 out["calls"].append(dict(name=nm, vals=lp.predict(y=y, x=X, x_new=P).reshape(len(p1), len(p2)).tolist(), lps=[rec]))
         return out
 
@@ -440,7 +514,7 @@ def run_impl(case):
         if dim == 1:
             fd = DenseFunctionalData(_dargs(case["x"]), DenseValues(np.array([[float(F(t)) for t in r] for r in case["X"]])))
         else:
-            fd = DenseFunctionalData(_dargs(case["x"], case["x2"]), DenseValues(np.array([[[float(F(t)) for t in r] for r in Yk] for Yk in case["Y"]])))
+            fd = DenseFunctionalData(_dargs(case["x"], case["x2"], case), DenseValues(np.array([[[float(F(t)) for t in r] for r in Yk] for Yk in case["Y"]])))
     else:
         arg = IrregularArgvals({i: DenseArgvals({"input_dim_0": _np(o["t"])}) for i, o in enumerate(case["obs"])})
         val = IrregularValues({i: _np(o["y"]) for i, o in enumerate(case["obs"])})
@@ -465,7 +539,7 @@ def run_impl(case):
     with _Recorder() as rec:
         for ci, (nm, p1, p2) in enumerate(calls):
             try:
-                res = call(_dargs(p1, p2))
+                res = call(_dargs(p1, p2, case, nm))
             except Exception as e:  # noqa: BLE001 — a failing further query set must not hide the others
                 if ci == 0:
                     raise
@@ -492,12 +566,12 @@ def run_impl(case):
                          for r in (fits if method == "PS" else lps)]
             out["calls"].append(c)
         # history on one object: the base query set again, after all the other calls
-        out["repeat"] = np.asarray(call(_dargs(calls[0][1], calls[0][2])).values).tolist()
+        out["repeat"] = np.asarray(call(_dargs(calls[0][1], calls[0][2], case)).values).tolist()
         rec.take()
         # evaluating at the original sampling points returns the fitted curve
         if what in ("smooth", "mean") and entry.startswith("DenseFunctionalData"):
             out["none"] = np.asarray(call(None).values).tolist()
-            out["at_x"] = np.asarray(call(_dargs(case["x"], case.get("x2") if dim == 2 else None)).values).tolist()
+            out["at_x"] = np.asarray(call(_dargs(case["x"], case.get("x2") if dim == 2 else None, case)).values).tolist()
     return out
 
 
@@ -563,7 +637,7 @@ def _requested(case):
     """The smoothing options the case asked for (what the model uses; the data / coefficients are the captured ones)."""
     what = case["entry"].split(".")[1]
     if case["method"] == "LP":
-        _, sc = DOMAINS[case["dom"]]
+        _, sc = _domain(case["dom"])
         if case.get("default_bw"):
             return dict(kernel=case["kernel"], h=F(_default_bandwidth(case)), degree=case["degree"])
         return dict(kernel=case["kernel"], h=F(case["hu"]) * sc, degree=case["degree"])
@@ -807,4 +881,8 @@ def classify(case, impl):
         tags.append("default-bandwidth")
     if case.get("pooled"):
         tags.append("pooled>2000")
+    if case.get("gap"):
+        tags.append("gap>2h")
+    if case.get("int_axis0"):
+        tags.append("int-dtype-axis0")
     return tags
